@@ -56,7 +56,8 @@ Rules5 ==
       Tok   |-> Class(<<Field("w", WordRx), Field("mark", Opt(Ref("Prev"))), Field("rest", Opt(Rgx(Cls(<<a, b>>))))>>),
       Prev  |-> Class(<<PassM(Back(1))>>) ]
 
-Ign == <<Rgx(RxPlus(Cls(<<sp, NL>>)))>>
+CR == 13          \* a carriage return is ignorable text here, but it is NOT a line break (only NL is)
+Ign == <<Rgx(RxPlus(Cls(<<sp, NL, CR>>)))>>
 
 Grammar(i) ==
     CASE i = 1 -> [rules |-> Rules1, ign |-> <<>>, start |-> "start"]
@@ -76,8 +77,9 @@ Entries(i) == CASE i \in {1, 2} -> <<"start", "Item", "Group">>
 N == IF Tier = "quick" THEN 4 ELSE 5
 Texts(i) ==
     CASE i = 1 -> TextSeqUpTo(<<a, plus, lpar, rpar>>, N) \o << <<a, b, plus, a, lpar, b, rpar>> >>
-      [] i = 2 -> TextSeqUpTo(<<a, plus, sp, NL>>, N)
+      [] i = 2 -> TextSeqUpTo(<<a, plus, CR, NL>>, N)
                   \o << <<a, NL, plus, NL, NL, b, sp, lpar, NL, a, rpar, NL>>, <<sp, a, sp, plus, sp, b, sp>>,
+                        <<a, CR, NL, b, plus, a, CR, NL, a, b>>, <<a, CR, b, CR, CR, a, NL, b>>,
                         <<lpar, sp, a, NL, sp, b, rpar, sp, a>> >>
       [] i = 3 -> TextSeqUpTo(<<a, b>>, N + 1)
       [] i = 4 -> TextSeqUpTo(<<a, b, sp, NL>>, N) \o << <<b, NL, a, sp, b, NL, a, NL>> >>
